@@ -7,13 +7,13 @@ HOOK_COMMITS = []  # filled from git below
 
 CHECKS = {
     "C04": ("exploration", "model-based stateful PBT over delivery/timeout/cancel scripts under a manual hub and virtual time; real-clock sweep sub-check",
-            "One real node + stub peers; request frames are parked, then a generated script delivers genuine / unknown-id / right-id-wrong-peer / unconnected-sender / request-typed / duplicate / late replies, advances virtual time across the timeout, aborts callers and makes peers unreachable, for DHT requests and /rr/ application requests. Reference model: a request completes with the first reply carrying its id from its destination while pending, else timeout/send error, exactly once; pending tables empty afterwards; ≤256 /rr/ requests pending and the 257th refused; cancelled DHT callers swept after 2× the timeout (real clock). Third table: DhtCoreEngine::retrieve over a harness NetworkSender with scripts of retrieve / reply (value, none, error, wrong kind, duplicate, late) / unknown id / timeout / cancelled caller / failing sends - outcome is the first value delivered to one of its own queries while pending, each retrieve resolves once, table empty at the end, at most 10 000 pending and the excess refused before it is sent. Sweep sub-check: genuine replies meet cancelled DHT callers in both orders.",
+            "One real node + stub peers; request frames are parked, then a generated script delivers genuine / unknown-id / right-id-wrong-peer / unconnected-sender / request-typed / duplicate / late replies, advances virtual time across the timeout, aborts callers and makes peers unreachable, for DHT requests and /rr/ application requests. Reference model: a request completes with the first reply carrying its id from its destination while pending, else timeout/send error, exactly once; pending tables empty afterwards; ≤256 /rr/ requests pending and the 257th refused; cancelled DHT callers swept after 2× the timeout (real clock). Third table: DhtCoreEngine::retrieve over a harness NetworkSender with scripts of retrieve / reply (value, none, error, wrong kind, duplicate, late) / unknown id / timeout / cancelled caller / failing sends - outcome is the first value delivered to one of its own queries while pending, each retrieve resolves once, table empty at the end, at most 10 000 pending and the excess refused before it is sent. Sweep sub-check: genuine replies meet cancelled DHT callers in both orders. The /rr/ cap is also exercised under 8 real worker threads with large payloads (cap_threads).",
             "Single-threaded runtime: thread interleavings inside a critical section are not explored.", "5/C04"),
     "C05": ("exploration", "structure-aware PBT/fuzzing of inbound byte paths with no-panic, allocation, cap, window and source-attribution oracles",
             "Random bytes (sizes clustered at 0/1/64Ki±1/128Ki), structure-aware mutations of every valid message kind (bit flips, truncation, splices, maximal varints) and valid messages with extreme fields through handle_dht_message, the real receive dispatcher (frame parser, /rr/ branch, DHT handler), DhtCoreEngine::handle_request, DhtRecord (de)serialise and the envelope parser: no panic, heap growth ≤ 4 MiB + 16×len (oversized DHT messages refused before decoding with < 64 KiB allocated), find-node ≤ 20 / find-value ≤ 8 nodes, values > 512 bytes never stored, records ≤ 512 bytes, frames surfaced only inside the timestamp window, surfaced source = connection id whatever the payload claims. Hostile replies to the node's own get / lookup / put / ping from a stub on the right connection with the right id (oversized values, node lists of up to 3000 entries with empty / multi-byte / long ids and garbage addresses, absurd counters): no panic, completion, heap bound, at most k nodes, nothing over 512 bytes retained. Every sub-check runs with logging on (a tracing subscriber that formats every field), as nodes do.",
             "Thread-local counting allocator; 5 s dead band on wall-clock window edges.", "5/C05"),
     "C20": ("exploration", "PBT over seeded schedules (start offsets, per-frame delays, silence/stop instants) under an owned virtual clock; bounded-completion oracle; leftover-reference check for background tasks; sampled real-thread variant",
-            "2..12 real nodes, 2..12 (40) concurrent lookups/puts/gets/pings/inbound requests at seeded offsets, per-frame delays up to 1.5×timeout, peers turned silent/dead mid-operation, stop() at a seeded instant: every operation resolves within (2·20+2)·T, stop() returns within (peers+2)·T, after stop returned and its operations resolved no frame or send attempt leaves the node for 10·T and an injected request is not answered, no task panics.",
+            "2..12 real nodes, 2..12 (40) concurrent lookups/puts/gets/pings/inbound requests at seeded offsets, per-frame delays up to 1.5×timeout, peers turned silent/dead mid-operation, stop() at a seeded instant: every operation resolves within (2·20+2)·T, stop() returns within (peers+2)·T, after stop returned and its operations resolved no frame or send attempt leaves the node for 10·T and an injected request is not answered, no task panics. Operations include dials of known and never-seen peers and inbound connections, a fifth of all operations are dropped by their caller mid-flight, stop() may be issued at the very instant an operation starts, and after stop() only the caller's reference to the manager may remain.",
             "Paused tokio clock on one thread (seeded yields and delays give the interleavings): liveness is bounded completion in virtual time; OS-thread interleavings are only sampled by the real-thread sub-check, where only a hang (> 60 s beyond the bound) is decided.", "5/C20"),
     "C01": ("exploration", "PBT over topologies × fault patterns on an in-memory network of real nodes under virtual time; trace invariants + ground-truth closest set",
             "N real DhtNetworkManager/TransportHandle instances exchange the real framed bytes through a hub (paused tokio clock); generated topology, ids, key, K, silent/dead/slow peers and lying stub peers (unknown, duplicate, requester, self ids, forged distances). From the returned list and the RPC trace: completes within a virtual-time bound, ≤K distinct nodes in ascending true XOR distance, each the local node or a peer whose reply was delivered in time, no learned peer closer than the farthest returned one left uncontacted, full mesh ⇒ exactly the K globally closest, never a request to itself, no peer queried twice, ≤1000 frames. Liars also name the requester under each of its aliases (transport id, application id, hex of its DHT key).",
@@ -25,16 +25,16 @@ CHECKS = {
             "Generated histories of upsert/delete/batch/checkpoint/clean-reopen/crash-reopen (nested crash-recover cycles) under 4 flush policies with rotation forced every 4..16 entries (natural 1000-entry rotation in thorough); a crash-point callback copies the state directory at each step of record write, rotation and checkpoint; every image is reopened and must equal S_j for acked ≤ j ≤ issued (flush-always) resp. 0 ≤ j ≤ issued, a batch counting as one operation; clean restart reproduces the full state; transaction ids keep increasing across restarts.",
             "Crash = process death (page cache survives); crash points are the instrumented ones plus truncations of the record being written.", "5/C06"),
     "C07": ("fault_enumeration", "PBT over corruption scripts on generated state directories vs an independent reference replay; genuineness, damage reporting, memory bound",
-            "A cleanly closed directory (rotated logs, snapshots) plus a second store for transplants is damaged by 1..3 generated corruptions (bit flips, overwrite, truncate, append, duplicate/move/transplant a record, length-prefix rewrites, key/value re-split keeping the tag, file deletion, key-file damage); the reopened state must equal the reference replay of the damaged files, every value must be one genuinely written for its key, damage that breaks a record or snapshot must show in the statistics, heap growth ≤ 64× file size + 1 MiB, no panic. Snapshot headers are also damaged field-wise (decoded, one field rewritten to an extreme value, re-encoded with a matching length prefix). A single allocation request of 8 GiB or more is served from address space only and judged by the memory oracle; one that would abort the process ends the run as a violation for the case in flight.",
+            "A cleanly closed directory (rotated logs, snapshots) plus a second store for transplants is damaged by 1..3 generated corruptions (bit flips, overwrite, truncate, append, duplicate/move/transplant a record, length-prefix rewrites, key/value re-split keeping the tag, file deletion, key-file damage); the reopened state must equal the reference replay of the damaged files, every value must be one genuinely written for its key, damage that breaks a record or snapshot must show in the statistics, heap growth ≤ 64× file size + 1 MiB, no panic. Snapshot headers are also damaged field-wise (decoded, one field rewritten to an extreme value, re-encoded with a matching length prefix). A single allocation request of 8 GiB or more is served from address space only and judged by the memory oracle; one that would abort the process ends the run as a violation for the case in flight. After the first recovery the directory is reopened once more and must yield the same state.",
             "Reference replay counts a framed record iff it is field-for-field identical to one this store wrote; complete-record duplication/reordering and boundary truncation need not be reported.", "5/C07"),
     "C08": ("exploration", "PBT round-trip + tamper-rejection oracle over identity kinds × call sites, real ML-DSA (debug assertions off)",
             "Identity kinds (generated, imported, from_seed, secure, derived path) × messages × tampers (any bit of message/signature/key, extension/truncation, another identity) × every signature-checking call site (ml_dsa_*, NodeIdentity, IPv4/IPv6NodeID per field, SignatureVerifier signature and file incl. unknown/not-yet-valid/expired pinned keys and wrong checksum, Single/Delegated/Threshold/Composite WriteAuth); genuine ⇒ accepted, tampered ⇒ rejected; every bit of one message exhaustively. Address-bound identities also over IPv4-mapped / IPv4-compatible / global / ULA addresses with one flipped address bit, the sibling embedding of the same 32 bits, and the same fields re-typed between the IPv4 and the IPv6 identity.",
             "Sampled bit flips do not argue unforgeability; keys are generated per run (outcome is key-independent). ThresholdWriteAuth placeholder is a recorded known finding.", "5/C08"),
     "C09": ("exploration", "stateful PBT: by-construction genuineness oracle + differential cached-vs-direct verdicts over presentation histories",
-            "Histories of genuine, field-altered, byte-altered, foreign-signed and foreign-id records over 4 key pairs presented to one SignatureCache (capacity 1..8 or 100): direct verification accepts exactly the genuine ones (incl. user id bound to the embedded key) and the cache returns the same verdict every time; constructor bounds on name length, endpoint count and lifetime.",
+            "Histories of genuine, field-altered, byte-altered, foreign-signed and foreign-id records over 4 key pairs presented to one SignatureCache (capacity 1..8 or 100): direct verification accepts exactly the genuine ones (incl. user id bound to the embedded key) and the cache returns the same verdict every time; constructor bounds on name length, endpoint count and lifetime. Endpoint lists of up to 5 entries are also reordered, shortened, duplicated and altered in every sub-field.",
             "Genuineness is known by construction (which fields were changed after signing, which key signed).", "5/C09"),
     "C13": ("exploration", "model-based stateful PBT: reference counters per subnet/ASN level vs enforcer, routing-table path and bootstrap path",
-            "(a) analyse/add/can_accept/remove/set_network_size histories over nested IPv4/IPv6 prefix pools with ASN/hosting/VPN attributes vs reference counters (admit iff every level is below its possibly-halved cap; stats equal the model after every step); (b) DhtCoreEngine add/evict/failure with addresses in socket, bare-ip and library Display form: counters equal the admitted nodes after every step (slots returned, no partial admission); (c) BootstrapManager::add_peer over IPv4/IPv6.",
+            "(a) analyse/add/can_accept/remove/set_network_size histories over nested IPv4/IPv6 prefix pools with ASN/hosting/VPN attributes vs reference counters (admit iff every level is below its possibly-halved cap; stats equal the model after every step); (b) DhtCoreEngine add/evict/failure with addresses in socket, bare-ip and library Display form: counters equal the admitted nodes after every step (slots returned, no partial admission); (c) BootstrapManager::add_peer over IPv4/IPv6. The bootstrap path also runs with a binding join rate limiter: a join it refuses must consume no diversity slot.",
             "Only admitted nodes are removed; core-engine and bootstrap paths have no GeoIP source.", "5/C13"),
     "C18": ("exploration", "model-based stateful PBT + exhaustive single-byte corruption sweep + crash-image enumeration of the file update",
             "store/retrieve(current|previous|other password)/change-password/clear-cache/reopen histories vs a reference model; every byte offset × 3 masks of a golden store file (thorough; quick every 4th offset) must fail or return the original seed; store and password change interrupted at each instrumented step (+ truncations of the temporary file) must reopen as exactly the old or the new contents.",
@@ -56,10 +56,10 @@ CHECKS = {
             "Ranking claims asserted for trust/weights inside [0,1]; candidate ids pairwise distinct.", "5/C16"),
     # id: (category, technique, level text, note, design_ref)
     "C12": ("exploration", "model-based stateful PBT (proptest histories vs reference counter model) + barrier-released thread rounds",
-            "Generated histories of validate/batch/sync-reload/cleanup over 1..4 peers are compared step by step with a reference model (last accepted number per peer, wall-clock window with a dead band); a second sub-check releases 2..16 threads on the same (peer, seq) and requires exactly one acceptance. Exploration is the right level: the state space is unbounded and the oracle is exact and cheap. The concurrent sub-check runs on OS threads lined up by a spinning start gate against a known peer and also checks the final counter.",
+            "Generated histories of validate/batch/sync-reload/cleanup over 1..4 peers are compared step by step with a reference model (last accepted number per peer, wall-clock window with a dead band); a second sub-check releases 2..16 threads on the same (peer, seq) and requires exactly one acceptance. Exploration is the right level: the state space is unbounded and the oracle is exact and cheap. The concurrent sub-check runs on OS threads lined up by a spinning start gate against a known peer and also checks the final counter. An aged-history sub-check accepts numbers with timestamps just inside the one-hour window, lets them age out in real time, runs cleanup_old_sequences and re-submits them.",
             "Trusts the OS scheduler to produce contention in the thread sub-check (sampled, not enumerated); timestamps within 5 s of a window edge are not judged.", "5/C12"),
     "C14": ("exploration", "PBT over arrival sequences with interval-arithmetic oracle on measured time",
-            "Arrival sequences (shared/distinct prefixes, sleeps, 1..8 threads) against Engine, JoinRateLimiter and validation::RateLimiter; admitted counts are bounded by burst+refill and by max per window computed from measured elapsed time, plus exactness for hour-long windows and a fresh-key lower bound.",
+            "Arrival sequences (shared/distinct prefixes, sleeps, 1..8 threads) against Engine, JoinRateLimiter and validation::RateLimiter; admitted counts are bounded by burst+refill and by max per window computed from measured elapsed time, plus exactness for hour-long windows and a fresh-key lower bound. A paced single-source sub-check (burst, one request per token interval up to max-1, idle refill, housekeeping via cleanup() or a short cleanup interval, one more burst) bounds the admitted requests of the source by max per window counted from before its first request.",
             "Upper bounds over-approximate elapsed time, so they can only be loose, never flaky; thread interleavings are sampled.", "5/C14"),
     "C15": ("exploration", "exhaustive small-scope enumeration + PBT with necessary-condition and metamorphic oracles",
             "Every witness multiset up to a small size over the property's grid is enumerated (exhaustive for that sub-space) and larger sets are sampled; acceptance is checked against necessary conditions recomputed from the inputs, the normal-mode iff, monotonicity under confirm→deny, the unanimous-accept clause and the 3f+1 family built by construction.",
